@@ -582,3 +582,28 @@ Proof.
   - destruct I' as [I'|[]]; discriminate.
   - destruct I' as [I'|[]]; discriminate.
 Qed.
+
+(** Examples *)
+Definition tr_deliver : list label :=
+  [LStart; LFeed (FMsg (InMsgs false [call_msg [55]%N [109]%N [50]%N])); LRelRead; LRelNext; LRelBarrier;
+   LRelAcquire 0; LGate [50]%N (ORes [51]%N); LRelHandled 0].
+
+Example whole_messages_nonvacuous :
+  exists s s', reach cfg_push s /\
+    step s (LRelDeliver 0) = Some (s', [OSend true false [{| r_id := [55]%N; r_body := BRes [51]%N |}]]).
+Proof.
+  destruct (run_state cfg_push tr_deliver) as [s|] eqn:E; [|discriminate E].
+  exists s. eexists. split; [eapply run_state_reach; eauto|].
+  vm_compute in E. injection E as <-. vm_compute. reflexivity.
+Qed.
+
+Example sends_in_critical_sections_nonvacuous :
+  exists s s1 s2 s3, reach cfg_push s /\
+    step s (LRelDeliver 0) = Some (s1, [OSend true false [{| r_id := [55]%N; r_body := BRes [51]%N |}]]) /\
+    step s1 (LCallPush 5 false [109]%N []) = Some (s2, []) /\
+    step s2 (LRelPush 5) = Some (s3, [OSendReq true [] [109]%N []; ORet 5 AOk]).
+Proof.
+  destruct (run_state cfg_push tr_deliver) as [s|] eqn:E; [|discriminate E].
+  exists s. eexists. eexists. eexists. split; [eapply run_state_reach; eauto|].
+  vm_compute in E. injection E as <-. split; [vm_compute; reflexivity|]. split; vm_compute; reflexivity.
+Qed.
